@@ -423,3 +423,84 @@ Example c20_child_nonvacuous :
      (true, QF (Fin 24)); (true, QM (MFin 16 2))]
   /\ h_changed (hrun (hinit vals) ops) = false.
 Proof. vm_compute. repeat split. Qed.
+
+(* ---- chunk-wise reduction ----------------------------------------------------------------- *)
+Lemma chunk_min_ok chunks : chunk_min chunks = nanmin_l (concat chunks).
+Proof.
+  unfold chunk_min. induction chunks as [|c r IH]; [reflexivity|].
+  cbn [map concat]. rewrite nanmin_l_app, <- IH. reflexivity.
+Qed.
+
+Lemma chunk_max_ok chunks : chunk_max chunks = nanmax_l (concat chunks).
+Proof.
+  unfold chunk_max. induction chunks as [|c r IH]; [reflexivity|].
+  cbn [map concat]. rewrite nanmax_l_app, <- IH. reflexivity.
+Qed.
+
+Lemma nanmean_all_nan l : count_valid l = 0 -> nanmean_l l = MNaN.
+Proof. intros H. unfold nanmean_l. now rewrite H. Qed.
+
+Lemma wmean_fold chunks : forall a m,
+  (count_valid a = 0 -> m = MNaN) ->
+  (0 < count_valid a -> mv_eq m (nanmean_l a)) ->
+  let r := fold_left wmean_step chunks (m, count_valid a) in
+  snd r = count_valid (a ++ concat chunks)
+  /\ (count_valid (a ++ concat chunks) = 0 -> fst r = MNaN)
+  /\ (0 < count_valid (a ++ concat chunks) -> mv_eq (fst r) (nanmean_l (a ++ concat chunks))).
+Proof.
+  induction chunks as [|c r IH]; intros a m H0 H1; cbv zeta.
+  - cbn [fold_left concat fst snd]. rewrite app_nil_r. auto.
+  - cbn [fold_left concat]. rewrite app_assoc.
+    pose proof (count_valid_nonneg a) as Pa. pose proof (count_valid_nonneg c) as Pc.
+    assert (Hs : wmean_step (m, count_valid a) c
+                 = if count_valid c =? 0 then (m, count_valid a)
+                   else if count_valid a =? 0 then (nanmean_l c, count_valid c)
+                   else (mdiv (madd (mscale m (count_valid a))
+                                    (mscale (nanmean_l c) (count_valid c)))
+                              (count_valid a + count_valid c),
+                         count_valid a + count_valid c)) by reflexivity.
+    rewrite Hs. clear Hs.
+    destruct (count_valid c =? 0) eqn:Ec.
+    + replace (count_valid a) with (count_valid (a ++ c)) by (rewrite count_valid_app; lia).
+      apply IH.
+      * rewrite count_valid_app. intros H. apply H0. lia.
+      * rewrite count_valid_app. intros H. rewrite nanmean_app_nan_r by lia. apply H1. lia.
+    + destruct (count_valid a =? 0) eqn:Ea.
+      * replace (count_valid c) with (count_valid (a ++ c)) by (rewrite count_valid_app; lia).
+        apply IH.
+        -- rewrite count_valid_app. intros H. lia.
+        -- intros _. rewrite nanmean_app_nan_l by lia. apply mv_eq_nanmean.
+      * replace (count_valid a + count_valid c) with (count_valid (a ++ c))
+          by (rewrite count_valid_app; lia).
+        apply IH.
+        -- rewrite count_valid_app. intros H. lia.
+        -- intros _. rewrite count_valid_app. apply mean_update; [lia|lia|apply H1; lia].
+Qed.
+
+(* the weighted chunk-wise mean is the mean of the data *)
+Theorem chunk_mean_weighted_ok chunks :
+  mv_eq (chunk_mean_weighted chunks) (nanmean_l (concat chunks)).
+Proof.
+  unfold chunk_mean_weighted.
+  destruct (wmean_fold chunks [] MNaN (fun _ => eq_refl)) as (_ & B & C).
+  { cbn. lia. }
+  cbn [app] in *. change (count_valid []) with 0 in *.
+  pose proof (count_valid_nonneg (concat chunks)) as P.
+  destruct (Z.eq_dec (count_valid (concat chunks)) 0) as [E|E].
+  - rewrite (B E), (nanmean_all_nan _ E). exact I.
+  - apply C. lia.
+Qed.
+
+(* the unweighted mean of the chunk means is not: chunks [1, 2, 3] and [5] *)
+Theorem chunk_mean_unweighted_refuted :
+  exists chunks, ~ mv_eq (chunk_mean_unweighted chunks) (nanmean_l (concat chunks)).
+Proof.
+  exists [[Fin 8; Fin 16; Fin 24]; [Fin 40]]. vm_compute. intros (_ & _ & H). discriminate.
+Qed.
+
+Example c20_chunks_nonvacuous :
+  let chunks := [[Fin 8; NaN; Fin 24]; [NaN; NaN]; [Fin 40; PInf; NInf]; [Fin 16]] in
+  chunk_min chunks = NInf /\ chunk_max chunks = PInf /\ chunk_mean_weighted chunks = MNaN
+  /\ chunk_mean_weighted [[Fin 8; Fin 16; Fin 24]; [NaN]; [Fin 40]] = MFin 264 12
+  /\ chunk_mean_unweighted [[Fin 8; Fin 16; Fin 24]; [NaN]; [Fin 40]] = MFin 168 6.
+Proof. vm_compute. repeat split. Qed.
